@@ -262,7 +262,12 @@ pub fn render_struct(l: &Layout, o: &RenderOpts) -> String {
         s.push_str(&o.struct_derives);
         s.push('\n');
     }
-    let vis = if o.vis_pub { "pub " } else { "" };
+    let vis = match (o.vis_pub, l.vis) {
+        (false, _) => "",
+        (true, 1) => "pub(crate) ",
+        (true, 2) => "pub(super) ",
+        _ => "pub ",
+    };
     s.push_str(&format!("{}struct {} {{\n", vis, l.name));
     for f in &l.fields {
         s.push_str(&render_field(l, f, o));
